@@ -497,7 +497,10 @@ func (s *Server) writeData() error {
 }
 
 func (s *Server) writePoint(p edge.PointMessage) error {
-	strs, floats, ints, bools := s.fieldsToTypedMaps(p.Fields())
+	strs, floats, ints, bools, err := s.fieldsToTypedMaps(p.Fields())
+	if err != nil {
+		return err
+	}
 	udfPoint := &agent.Point{
 		Time:            p.Time().UnixNano(),
 		Name:            p.Name(),
@@ -523,6 +526,7 @@ func (s *Server) fieldsToTypedMaps(fields models.Fields) (
 	floats map[string]float64,
 	ints map[string]int64,
 	bools map[string]bool,
+	err error,
 ) {
 	for k, v := range fields {
 		switch value := v.(type) {
@@ -547,7 +551,7 @@ func (s *Server) fieldsToTypedMaps(fields models.Fields) (
 			}
 			bools[k] = value
 		default:
-			panic("unsupported field value type")
+			return nil, nil, nil, nil, fmt.Errorf("field %q has type %T which cannot be sent to a UDF", k, v)
 		}
 	}
 	return
@@ -590,7 +594,10 @@ func (s *Server) writeBeginBatch(begin edge.BeginBatchMessage) error {
 }
 
 func (s *Server) writeBatchPoint(group models.GroupID, bp edge.BatchPointMessage) error {
-	strs, floats, ints, bools := s.fieldsToTypedMaps(bp.Fields())
+	strs, floats, ints, bools, err := s.fieldsToTypedMaps(bp.Fields())
+	if err != nil {
+		return err
+	}
 	req := &agent.Request{
 		Message: &agent.Request_Point{
 			Point: &agent.Point{
